@@ -181,7 +181,7 @@ class ShortStream:
         return self.src.readline(self.k if n is None or n < 0 else min(n, self.k))
 
 
-DELIVERIES = ['plain', 'body-read-first', 'body-sniffed-first', 'one-byte-reads', 'half-reads', 'chunked', 'chunked-3', 'chunked-upper']
+DELIVERIES = ['bytesio-offset', 'plain', 'body-read-first', 'body-sniffed-first', 'one-byte-reads', 'half-reads', 'chunked', 'chunked-3', 'chunked-upper']
 
 
 def observe_forms(Request, body_text, qs='', ctype='rotate', delivery='plain'):
@@ -201,6 +201,11 @@ def observe_forms(Request, body_text, qs='', ctype='rotate', delivery='plain'):
         del env['CONTENT_LENGTH']
         env['HTTP_TRANSFER_ENCODING'] = 'chunked'
         env['wsgi.input'] = io.BytesIO(raw)
+    if delivery == 'bytesio-offset':
+        # the server buffered the connection in one BytesIO: earlier bytes lie before the body, the stream stands at the body's start
+        before = b'POST /form HTTP/1.1\r\nHost: h\r\n\r\nuser=alice&note=of-the-previous-request'
+        env['wsgi.input'] = io.BytesIO(before + body + b'&tail=of-the-next-request')
+        env['wsgi.input'].seek(len(before))
     if delivery == 'one-byte-reads':
         env['wsgi.input'] = ShortStream(body, 1)
     elif delivery == 'half-reads':
@@ -457,6 +462,7 @@ def replay(case):
         except Exception as e:   # noqa
             got = f'raised {type(e).__name__}: {e}'
         how = {'body-read-first': ' after the handler has read request.body completely', 'body-sniffed-first': ' after the handler has read 3 bytes of request.body',
+               'bytesio-offset': ' (wsgi.input is a BytesIO of the whole connection, positioned at the start of the body)',
                'chunked-upper': ' (sent with Transfer-Encoding: chunked, 11-byte chunks, sizes in upper-case hex)',
                'chunked': ' (sent with Transfer-Encoding: chunked, one chunk)', 'chunked-3': ' (sent with Transfer-Encoding: chunked, chunks of 3 bytes)',
                'one-byte-reads': ' (wsgi.input answers every read with one byte)', 'half-reads': ' (wsgi.input answers every read with at most half of the body)'}.get(case.get('delivery'), '')
